@@ -24,7 +24,20 @@ NS = {
 }
 XF = "{http://www.w3.org/2002/xforms}"
 
-LANG_POOL = ["en", "fr", "English (en)", "español", "de", "default", "sw"]
+LANG_POOL = ["en", "fr", "English (en)", "español", "de", "default", "sw", "French (fr)", "Kiswahili (sw)"]
+
+
+def near_misses(name: str) -> list[str]:
+    """Spellings a person may type for the same language: other letter case, and for `Name (code)` the name
+    without the code, the code alone, the code glued on — all of them are *different* translations."""
+    out = [name.upper(), name.lower(), name.title(), name.swapcase()]
+    m = re.fullmatch(r"(.*?)\s*\((.+)\)", name)
+    if m:
+        base, code = m.group(1), m.group(2)
+        out += [base, base.lower(), code, f"{base}({code})", f"{base} ({code.upper()})"]
+    else:
+        out += [f"{name} ({name[:2].lower()})", f"{name.title()} ({name[:2].lower()})"]
+    return [v for v in dict.fromkeys(out) if v != name and v.strip() == v and v]
 TEXTS = ["A", "Label", "b c", "?", "é", "word", "-", "x1", "Z z"]
 MEDIA_COLS = ["image", "audio", "video", "big-image"]
 SEARCH_APPEARANCES = [
@@ -47,17 +60,16 @@ class ItextGen:
         if "nlangs" in self.directed:
             nl = self.directed["nlangs"]
         self.langs = rng.sample(LANG_POOL, nl)
-        # language names that differ only by letter case are different translations
-        if self.langs and rng.random() < 0.25:
-            base = rng.choice(self.langs)
-            var = rng.choice([base.upper(), base.lower(), base.title(), base.swapcase()])
+        # near misses of a language name (case, with / without the `(code)`, the code alone) are different
+        # translations; the default language may be any of them, present as a translation or not
+        if self.langs and rng.random() < 0.3:
+            var = rng.choice(near_misses(rng.choice(self.langs)))
             if var not in self.langs:
                 self.langs.append(var)
         # the form's default language is decided first (settings cell wins over the argument)
         dl_pool = self.langs + ["default", "xx"]
         if self.langs:
-            lg = rng.choice(self.langs)
-            dl_pool += [v for v in (lg.upper(), lg.lower(), lg.title()) if v != lg][:1]
+            dl_pool += rng.sample(near_misses(rng.choice(self.langs)), 2)
         self.st_dl = rng.choice(dl_pool) if rng.random() < 0.45 else None
         self.kw_dl = rng.choice(dl_pool) if rng.random() < 0.3 else None
         self.dl = self.st_dl or self.kw_dl or "default"
